@@ -76,12 +76,84 @@ func (cfg *EFConfig) exception(fn, callee string) (string, bool) {
 }
 
 func (cfg *EFConfig) exc(fn, callee string) *EFException {
+	if e := cfg.exc1(fn, callee); e != nil {
+		return e
+	}
+	// fn may be a helper extracted from a function the exception names: it
+	// inherits the exception when every production caller carries the same one.
+	var found *EFException
+	for _, host := range helperHosts(fn) {
+		e := cfg.exc1(host, callee)
+		if e == nil || (found != nil && e != found) {
+			return nil
+		}
+		found = e
+	}
+	return found
+}
+
+func (cfg *EFConfig) exc1(fn, callee string) *EFException {
 	for i, e := range cfg.Exceptions {
 		if (e.Fn == fn || e.Fn == "*") && (e.Callee == callee || e.Callee == "*") {
 			return &cfg.Exceptions[i]
 		}
 	}
 	return nil
+}
+
+// helperHosts names the reference functions a new helper was (transitively)
+// extracted from: the production callers of the helper, looking through
+// callers that are themselves new helpers. Empty for reference functions.
+func helperHosts(name string) []string {
+	if curProg == nil {
+		return nil
+	}
+	var fn *ssa.Function
+	for _, g := range curProg.ProdFuncs() {
+		if g.Parent() == nil && fnName(g) == name {
+			fn = g
+			break
+		}
+	}
+	if fn == nil || !isNewHelper(fn) {
+		return nil
+	}
+	seen := map[*ssa.Function]bool{}
+	hosts := map[string]bool{}
+	var walk func(h *ssa.Function, d int) bool
+	walk = func(h *ssa.Function, d int) bool {
+		if seen[h] {
+			return true
+		}
+		seen[h] = true
+		sites := callSitesOf(h)
+		if len(sites) == 0 || d > 3 {
+			return false
+		}
+		for _, cs := range sites {
+			c := cs.Parent()
+			for c.Parent() != nil {
+				c = c.Parent()
+			}
+			if isNewHelper(c) {
+				if !walk(c, d+1) {
+					return false
+				}
+				continue
+			}
+			hosts[fnName(c)] = true
+		}
+		return true
+	}
+	if !walk(fn, 0) {
+		return nil
+	}
+	var out []string
+	for h := range hosts {
+		out = append(out, h)
+	}
+	sort.Strings(out)
+	return out
 }
 
 // deferredOnly reports whether closure fn is referenced only by defer statements.
@@ -125,6 +197,17 @@ func hasUses(v ssa.Value) bool {
 // error was observed non-nil.
 func inFailureContext(call ssa.CallInstruction) bool {
 	fn := call.Parent()
+	if errResultIndex(fn.Signature) >= 0 {
+		// the function reports errors: the call is on a failure path iff no
+		// success return can follow it
+		r := reachable(fn, call.Block(), nil)
+		for _, ret := range successReturns(fn) {
+			if r[ret.Block()] || ret.Block() == call.Block() {
+				return false
+			}
+		}
+		return true
+	}
 	var cut []Edge
 	for _, b := range fn.Blocks {
 		ifi, ok := lastInstr(b).(*ssa.If)
